@@ -115,6 +115,10 @@ for S in ('f32', 'f64'):
         for f, op in (('lt', '<'), ('le', '<='), ('gt', '>'), ('ge', '>=')):
             add('<%s as PartialOrd>::%s' % (T, f), 'a: &%s, b: &%s' % (AS, AS), 'bool', 'a %s b' % op)
         add('<%s as PartialOrd>::partial_cmp' % T, 'a: &%s, b: &%s' % (AS, AS), 'Option<std::cmp::Ordering>', 'a.partial_cmp(b)')
+for P_ in ('Point1', 'Point2', 'Point3'):
+    # (a recursive implementation cannot be inlined at all; the shim's body then calls itself through the same mapping)
+    add('<cgmath::%s<R> as cgmath::EuclideanSpace>::centroid' % P_, 'p: &[%s<R>]' % P_, '%s<R>' % P_, '<%s<R> as EuclideanSpace>::centroid(p)' % P_)
+    add('<cgmath::%s<R> as cgmath::EuclideanSpace>::midpoint' % P_, 'p: %s<R>, q: %s<R>' % (P_, P_), '%s<R>' % P_, 'p.midpoint(q)')
 out = ['//! GENERATED by tools/gen_shims.py -- do not edit.  See that file for the rationale.', '#![allow(non_snake_case)]', 'use crate::*;', 'use cgmath::*;', '']
 seen = set()
 for callee, params, ret, body in E:
